@@ -349,6 +349,19 @@ func checkC17(p *Prog, r *Report) {
 	/* The table the per-file converter chooses from is the converter's
 	whole filter table (a snapshot of it), not a subset picked elsewhere. */
 	filtersF := p.Field(sffPkg, "Converter", "filters")
+	if nil == filtersF {
+		/* Whatever it is called and however its type is spelt: the one
+		map the converter keeps. */
+		if pk := p.Pkg(sffPkg); nil != pk {
+			if tn, ok := pk.Types.Scope().Lookup("Converter").(*types.TypeName); ok {
+				if st, ok := tn.Type().Underlying().(*types.Struct); ok {
+					if ms := fieldsOfType(st, func(t types.Type) bool { _, isMap := t.Underlying().(*types.Map); return isMap }, 0); 1 == len(ms) {
+						filtersF = ms[0]
+					}
+				}
+			}
+		}
+	}
 	for k, pa := range fr.Params {
 		if _, isMap := pa.Type().Underlying().(*types.Map); !isMap {
 			continue
@@ -725,10 +738,26 @@ func checkNewline(p *Prog, ru *Rule, fr, fd *ssa.Function) {
 	for _, f := range withAnons(fd) {
 		eachInstr(f, func(i ssa.Instruction) {
 			wc, ok := i.(*ssa.Call)
-			if !ok || "(*bytes.Buffer).Write" != calleeName(wc.Common()) {
+			if !ok {
 				return
 			}
-			for _, x := range valueRoots(wc.Common().Args[1], nil) {
+			/* What is added to the accumulated output: Buffer.Write(b),
+			Builder.Write(b), append(out, b...). */
+			var part ssa.Value
+			switch n := calleeName(wc.Common()); n {
+			case "(*bytes.Buffer).Write", "(*strings.Builder).Write", "(*bytes.Buffer).WriteString", "(*strings.Builder).WriteString":
+				part = wc.Common().Args[1]
+			default:
+				if bi, isB := wc.Common().Value.(*ssa.Builtin); isB && "append" == bi.Name() && 2 == len(wc.Common().Args) {
+					if _, isSlice := wc.Common().Args[1].Type().Underlying().(*types.Slice); isSlice && isByteSlice(wc.Common().Args[0].Type()) {
+						part = wc.Common().Args[1]
+					}
+				}
+			}
+			if nil == part {
+				return
+			}
+			for _, x := range valueRoots(part, nil) {
 				if "call" == x.Kind && x.V.(*ssa.Call).Common().StaticCallee() == fr {
 					wrote = true
 				}
@@ -855,4 +884,13 @@ func isNewlineValue(v ssa.Value) bool {
 	}
 	k, ok := constInt(els[0])
 	return ok && 10 == k
+}
+
+func isByteSlice(t types.Type) bool {
+	sl, ok := t.Underlying().(*types.Slice)
+	if !ok {
+		return false
+	}
+	b, ok := sl.Elem().Underlying().(*types.Basic)
+	return ok && types.Byte == b.Kind()
 }
